@@ -31,3 +31,9 @@ func VerifTransformAt(c Constraints, fieldPath string, v reflect.Value) {
 	}
 	c.recursiveTransform(strings.Split(fieldPath, "."), v)
 }
+
+// VerifUuidExt exposes uuidExt and the uuid test of uuidsFromDir on a directory entry name
+func VerifUuidExt(name string) (uuid, ext string, listed bool) {
+	uuid, ext = uuidExt(name)
+	return uuid, ext, uuidRegexp.MatchString(uuid)
+}
